@@ -473,6 +473,7 @@ func init() {
 			{Name: "every-prefix", Quick: 3000, Thorough: 100000, Run: c04Truncations},
 			{Name: "hex-sql", Quick: 20000, Thorough: 1000000, Run: c04Wrappers},
 		},
+		Extra: fuzzExtra("C04", 3000000),
 		Require: []string{"class_valid", "class_truncated", "class_bitflip", "class_splice", "class_forged-count", "class_random-behind-header", "class_every-prefix", "expected_too_large", "decoder_accepted", "decoder_error",
 			"config_disabled", "config_0-0-0", "config_only-level-2", "hex_decodes", "sql_scans", "encodings_truncated_at_every_prefix"},
 	})
